@@ -1300,6 +1300,208 @@ def fixed_effects_section(ck):
                 ck.fail(sig, what, rep)
     ck.section("fixed_effects", contrast_sums=NA, fmri_linear_models=NB, summands=KS, model_terms=len(terms))
 
+# ------------------------------------------------------------------ voxel arrays of any shape (labs.glm works on N-d arrays)
+def _shape_class(shape):
+    if len(shape) == 1:
+        return "flat"
+    if any(x == 1 for x in shape):
+        return "singleton-axis"
+    if len(set(shape)) == 1:
+        return "square" if len(shape) == 2 else "cube"
+    return "rect" if len(shape) == 2 else "box"
+
+
+def _gen_shape(rng, it, singleton=True):
+    k = it % (6 if singleton else 5)
+    if k == 0:
+        return (int(rng.integers(1, 7)),)
+    if k == 1:
+        n = int(rng.integers(2, 5))
+        return (n, n)
+    if k == 2:
+        n = int(rng.integers(2, 5))
+        m = int(rng.integers(2, 5))
+        return (n, m if m != n else n + 1)
+    if k == 3:
+        n = int(rng.integers(2, 4))
+        return (n, n, n)
+    if k == 4:
+        return tuple(int(x) for x in rng.permutation([2, 3, int(rng.integers(2, 4))]))
+    return tuple(int(x) for x in rng.permutation([1, int(rng.integers(1, 4))]))
+
+
+def grid_section(ck):
+    """labs.glm contrasts on voxel arrays of every shape class: the statistic of voxel v must not depend on how the
+    voxels are laid out (flat list, square / rectangular slice, cube, box, singleton axes)."""
+    import nipy.labs.glm.glm as lg
+    rng = ck.rng("grid")
+    build_ok = ck.build is not None and ck.build.ok
+    terms, meta = [], []
+    tinyq = frac(TINY2)
+    sd_floor = frac(TINY2 ** 0.5)
+
+    # ---- (a) contrast objects with effect (dim, *grid), variance (dim, dim, *grid); exact lattice
+    NA = ck.n(60, 600)
+    for it in range(NA):
+        typ = ["tmin", "t", "tmin", "F", "tmin", "F"][it % 6]
+        dim = 1 if typ == "t" else (int(rng.integers(1, 4)) if typ == "F" else int(rng.integers(2, 4)))
+        shape = _gen_shape(rng, it // 2 + it)
+        cls = _shape_class(shape)
+        nvox = int(np.prod(shape))
+        b = Fraction(0) if rng.random() < 0.5 else Fraction(int(rng.integers(-64, 65)), 8)
+        sd = [[None] * nvox for _ in range(dim)]
+        vv = [[None] * nvox for _ in range(dim)]
+        tt = [[None] * nvox for _ in range(dim)]
+        for i in range(dim):
+            for v in range(nvox):
+                r = rng.random()
+                if b == 0 and r < 0.08:          # zero variance: floor active
+                    vv[i][v], sd[i][v] = Fraction(0), sd_floor
+                elif b == 0 and r < 0.12:
+                    vv[i][v], sd[i][v] = tinyq, sd_floor
+                else:
+                    s_ = Fraction(int(rng.integers(1, 1024)), 2 ** int(rng.integers(0, 8)))
+                    vv[i][v], sd[i][v] = s_ * s_, s_
+                tt[i][v] = Fraction(int(rng.integers(-4095, 4096)), 16)
+        E = [[b + tt[i][v] * sd[i][v] for v in range(nvox)] for i in range(dim)]
+        if any(frac(float(x)) != x for row in E for x in row):
+            continue
+        multiF = typ == "F" and dim > 1
+        if multiF:
+            # positive definite covariance at every voxel: V = L L^t with integer lower-triangular L
+            Vb = np.zeros((dim, dim, nvox))
+            for v in range(nvox):
+                L = np.tril(rng.integers(-3, 4, (dim, dim))).astype(float)
+                L[np.diag_indices(dim)] = rng.integers(1, 4, dim)
+                Vb[:, :, v] = L @ L.T
+        else:
+            Vb = rng.integers(-999, 1000, (dim, dim, nvox)) / 8.0
+            for i in range(dim):
+                Vb[i, i, :] = [float(x) for x in vv[i]]
+        Ea = np.array([[float(x) for x in row] for row in E])
+        cg = lg.contrast(dim, typ, tiny=TINY2)
+        cg.effect = Ea.reshape((dim,) + shape).copy()
+        cg.variance = Vb.reshape((dim, dim) + shape).copy()
+        cg.dof = 10.0
+        cf = lg.contrast(dim, typ, tiny=TINY2)
+        cf.effect = Ea.copy()
+        cf.variance = Vb.copy()
+        cf.dof = 10.0
+        tname = "F%s" % ("1" if dim == 1 else "n") if typ == "F" else typ
+        rep = {"impl": "labs", "type": typ, "dim": dim, "voxel_array_shape": list(shape), "baseline": float(b), "tiny": TINY2,
+               "effect": cg.effect.tolist(), "variance": cg.variance.tolist(), "dof": 10.0}
+        ck.count(("grid", it, typ, shape), nontrivial=nvox > 1, bucket="grid:%s:%s" % (tname, cls))
+        flat = [np.asarray(getattr(cf, f)(float(b)), dtype=float) for f in ("stat", "pvalue", "zscore")]
+        try:
+            got = [np.asarray(getattr(cg, f)(float(b)), dtype=float) for f in ("stat", "pvalue", "zscore")]
+        except Exception as ex:  # noqa
+            ck.fail("grid/raises/labs/%s/%s" % (tname, cls),
+                    "labs %s contrast on a voxel array of shape %s raised %r; the same voxels as a flat list give stat %s" % (
+                        typ, shape, ex, flat[0].tolist()), dict(rep, flat_stat=flat[0].tolist()))
+            continue
+        rep["stat"] = got[0].tolist()
+        rep["flat_stat_reshaped"] = flat[0].reshape(-1).tolist()
+        if any(g.shape != shape for g in got):
+            ck.fail("grid/result-shape/labs/%s/%s" % (tname, cls), "labs %s stat/pvalue/zscore shapes %s on a voxel array of shape %s" % (
+                typ, [g.shape for g in got], shape), rep)
+            continue
+        # oracle: the value at voxel v does not depend on the layout of the voxel array
+        for g, f, what in zip(got, flat, ("stat", "pvalue", "zscore")):
+            same = np.allclose(g.ravel(), f.ravel(), rtol=1e-10, atol=0, equal_nan=True) if multiF else np.array_equal(g.ravel(), f.ravel(), equal_nan=True)
+            if not same:
+                ck.fail("grid/%s-differs-from-flat/labs/%s/%s" % (what, tname, cls),
+                        "labs %s contrast: %s on a voxel array of shape %s differs from the same voxels given as a flat list at %d of %d voxels" % (
+                            typ, what, shape, int((~np.isclose(g.ravel(), f.ravel(), rtol=1e-10, atol=0)).sum()), nvox), rep)
+        if multiF:
+            continue
+        # oracle (statement): t = (effect-baseline)/sd voxel by voxel, F1 = t^2, tmin = min over rows (exact on this lattice)
+        if typ == "t":
+            want = tt[0]
+        elif typ == "F":
+            want = [x * x for x in tt[0]]
+        else:
+            want = [min(tt[i][v] for i in range(dim)) for v in range(nvox)]
+        gotq = [frac(float(x)) if np.isfinite(x) else None for x in got[0].ravel()]
+        if gotq != want:
+            bad = [v for v in range(nvox) if gotq[v] != want[v]]
+            ck.fail("grid/not-effect-over-sd/labs/%s/%s" % (tname, cls),
+                    "labs %s statistic on a voxel array of shape %s is not (effect-baseline)/sd%s at voxels (C order) %s: %s, expected %s" % (
+                        typ, shape, " minimised over the rows" if typ == "tmin" else "", bad[:5], [float(got[0].ravel()[v]) for v in bad[:5]],
+                        [float(want[v]) for v in bad[:5]]), dict(rep, expected=[float(x) for x in want]))
+        if typ == "tmin" and None not in gotq:
+            tbl = sorted({(max(x, tinyq), frac(float(np.sqrt(float(max(x, tinyq)))))) for row in vv for x in row})
+            Vlit = clist([clist([cql([frac(x) for x in Vb[i, j, :]]) for j in range(dim)]) for i in range(dim)])
+            term = "sqrt_tbl_ok %s && list_eqb (option_eqb Qeq_bool) (g_tmin_grid (Qops %s) 0 %s %s %s %s %d) %s" % (
+                ctbl(tbl), ctbl(tbl), cmatq(E), Vlit, cq(b), cq(tinyq), nvox, clist(["(Some %s)" % cq(x) for x in gotq]))
+            terms.append(term)
+            meta.append(("grid/model-vs-impl/labs/tmin/%s" % cls, "g_tmin_grid and labs disagree on the conjunction statistic of a voxel array of shape %s" % (shape,), rep))
+        if it < 2:
+            ck.sample({"call": "labs contrast(dim=%d, type=%s) on a voxel array of shape %s: stat(%s)" % (dim, typ, shape, float(b)),
+                       "stat": got[0].tolist()})
+
+    # ---- (b) the top-level API: glm(Y, X, axis) on N-d data, time axis anywhere; contrasts t / F / tmin
+    NB = ck.n(20, 200)
+    for it in range(NB):
+        shape = _gen_shape(rng, it, singleton=False)
+        cls = _shape_class(shape)
+        nvox = int(np.prod(shape))
+        T, p = int(rng.integers(8, 14)), 3
+        ax = int(rng.integers(0, len(shape) + 1))
+        X = rng.integers(-4, 5, (T, p)).astype(float)
+        if np.linalg.matrix_rank(X) < p:
+            continue
+        Y2 = rng.integers(-20, 21, (T, nvox)).astype(float) * np.exp(rng.uniform(-2, 2, nvox))
+        Y = np.moveaxis(Y2.reshape((T,) + shape), 0, ax).copy()
+        C = rng.integers(-2, 3, (2, p)).astype(float)
+        if np.linalg.matrix_rank(C) < 2:
+            continue
+        bl = float(rng.integers(-2, 3)) / 2
+        ck.count(("grid-glm", it, shape, ax), nontrivial=True, bucket="grid-glm:%s:axis%d" % (cls, ax))
+        mg = lg.glm(Y, X, axis=ax, method="ols")
+        mf = lg.glm(Y2, X, axis=0, method="ols")
+        trows = None
+        for typ, cc in (("t", C[0]), ("F", C[:1]), ("F", C), ("tmin", C)):
+            tname = typ if typ != "F" else "F%s" % ("1" if cc.shape[0] == 1 else "n")
+            rep = {"impl": "labs", "call": "glm(Y, X, axis=%d, method='ols').contrast(c, type=%r).stat(%s)" % (ax, typ, bl),
+                   "voxel_array_shape": list(shape), "axis": ax, "X": X.tolist(), "Y": Y.tolist(), "c": cc.tolist(), "baseline": bl}
+            cf = mf.contrast(cc, type=typ)
+            flat = [np.asarray(getattr(cf, f)(bl), dtype=float) for f in ("stat", "pvalue", "zscore")]
+            if typ == "t":
+                trows = [np.asarray(mf.contrast(ci, type="t").stat(bl), dtype=float) for ci in C]
+            try:
+                cg = mg.contrast(cc, type=typ)
+                got = [np.asarray(getattr(cg, f)(bl), dtype=float) for f in ("stat", "pvalue", "zscore")]
+            except Exception as ex:  # noqa
+                ck.fail("grid/raises/labs-glm/%s/%s" % (tname, cls), "labs glm on data with voxel array shape %s (time axis %d): %s contrast raised %r" % (
+                    shape, ax, typ, ex), dict(rep, flat_stat=flat[0].tolist()))
+                continue
+            rep["stat"] = got[0].tolist()
+            rep["flat_stat"] = flat[0].tolist()
+            if any(g.shape != shape for g in got):
+                ck.fail("grid/result-shape/labs-glm/%s/%s" % (tname, cls), "labs glm %s contrast: result shapes %s for voxel array shape %s" % (
+                    typ, [g.shape for g in got], shape), rep)
+                continue
+            for g, f, what in zip(got, flat, ("stat", "pvalue", "zscore")):
+                if not np.allclose(g.ravel(), f.ravel(), rtol=1e-8, atol=1e-12, equal_nan=True):
+                    ck.fail("grid/%s-differs-from-flat/labs-glm/%s/%s" % (what, tname, cls),
+                            "labs glm %s contrast: %s for voxel array shape %s (time axis %d) differs from the fit of the same voxels as a (T, n) matrix at %d of %d voxels" % (
+                                typ, what, shape, ax, int((~np.isclose(g.ravel(), f.ravel(), rtol=1e-8, atol=1e-12)).sum()), nvox), rep)
+            if typ == "tmin" and trows is not None:
+                want = np.min(trows, axis=0)
+                if not np.allclose(got[0].ravel(), want.ravel(), rtol=1e-8, atol=1e-12):
+                    ck.fail("grid/tmin-not-min-of-row-t/labs-glm/%s" % cls,
+                            "labs glm conjunction statistic for voxel array shape %s is not the minimum of the row t statistics" % (shape,),
+                            dict(rep, min_of_row_t=want.tolist()))
+
+    if build_ok and terms:
+        res = ck.coq_bools(HDR + "From NV.C06 Require Import ModelGrid.\n", terms, name="grid")
+        ck.cov["traces_validated_against_impl"] += len(res)
+        for ok, (sig, what, rep) in zip(res, meta):
+            if not ok:
+                ck.fail(sig, what, rep)
+    ck.section("grid", contrast_objects=NA, glm_fits=NB, model_terms=len(terms),
+               shape_classes=["flat", "square", "rect", "cube", "box", "singleton-axis"])
+
 
 def run(ck):
     ck.cov["rule"] = ("state machine: every stat/p_value/z_score call sequence of length <= 3 (4) over two baselines + random sequences with "
@@ -1320,5 +1522,6 @@ def run(ck):
     state_section(ck)
     t4 = time.time()
     fixed_effects_section(ck)
+    grid_section(ck)
     t5 = time.time()
     ck.section("timing", build_and_overlay_s=round(t1 - t0, 1), fdr_s=round(t2 - t1, 1), contrast_s=round(t3 - t2, 1), state_s=round(t4 - t3, 1), fixed_effects_s=round(t5 - t4, 1))
